@@ -4,7 +4,8 @@ Oracle = an independent codec written from the RFCs (vf/c17_refcodec.py):
   values -> bytes -> values   O1 decode(encode(v)) == v; O2 byte equality with the reference
                               encoder (for transport parameters / TLS extensions after aligning
                               the free order) and cross-decoding in both directions; O3 an
-                              encoder that returns must have represented the value.
+                              encoder that returns for an in-domain value must have represented it
+                              (out-of-domain integers: observation only).
   bytes -> values             mutated-valid (length lies at every nesting level, truncation at
                               every byte, trailing garbage, flips, splices) and arbitrary inputs:
                               only documented parse errors (ValueError / tls.Alert); an accepted
@@ -42,6 +43,8 @@ ASSUMPTIONS = [
     "header encoding is observed through QuicPacketBuilder with a stand-in CryptoPair that leaves the header unprotected",
     "ALPN names and server names in generated values are ASCII (aioquic's API models them as str); a preferred address of 0.0.0.0/:: "
     "means 'absent' (RFC 9000 18.2) and is not generated as a value",
+    "integers outside a codec's domain (256 for push_uint8, 2^64+5 for push_uint_var) are outside the property's quantifier: a push that "
+    "returns for them and stores a truncated value is only counted (obs_push_returns_for_out_of_domain_value_<width>)",
     "leniency of aioquic towards truncated-looking / trailing / RFC-illegal inputs that the strict reference rejects for a reason other "
     "than an inner length exceeding its enclosing field is an 'either' region (counted as *_obs_lenient_*)",
 ]
